@@ -123,6 +123,68 @@ def splice(body, bi, callee, closure_call=False):
     blocks[bi]["term"] = {"k": "goto", "line": line, "col": term.get("col", 0), "exp": term.get("exp", False), "target": boff}
 
 
+def _single_defs(body):
+    defs = {}
+    for blk in body["blocks"]:
+        for st in blk["stmts"]:
+            if st["k"] == "assign" and not st["lhs"]["p"]:
+                defs.setdefault(st["lhs"]["l"], []).append(st["rv"])
+        t = blk["term"]
+        if t["k"] == "call" and not t["dest"]["p"]:
+            defs.setdefault(t["dest"]["l"], []).append(None)
+    return defs
+
+
+def _chase(defs, op, depth=0):
+    """Follow an operand through single-definition copies/borrows to a constant operand (or None)."""
+    if depth > 12 or op is None:
+        return None
+    if "const" in op:
+        return op["const"]
+    p = op.get("move") or op.get("copy")
+    if p is None or p["p"]:
+        return None
+    ds = defs.get(p["l"], [])
+    if len(ds) != 1 or ds[0] is None:
+        return None
+    rv = ds[0]
+    if "use" in rv:
+        return _chase(defs, rv["use"], depth + 1)
+    if "ref" in rv and not rv["ref"]["p"]:
+        return _chase(defs, {"copy": rv["ref"]}, depth + 1)
+    return None
+
+
+def devirtualise(body, by_path):
+    """After inlining a helper that takes `impl Fn` parameters: calls `Fn::call(f, (a, b))` whose `f` is now known to
+    be a function item become direct calls of that function (arguments untupled)."""
+    defs = _single_defs(body)
+    n = 0
+    for blk in body["blocks"]:
+        t = blk["term"]
+        if t["k"] != "call" or t.get("fn") not in CLOSURE_CALLS or t.get("resolved"):
+            continue
+        c = _chase(defs, t["args"][0]) if t.get("args") else None
+        if not c or "fn" not in c:
+            continue
+        tup = t["args"][1] if len(t["args"]) > 1 else None
+        tp = (tup.get("move") or tup.get("copy")) if tup else None
+        if tp is None or tp["p"]:
+            continue
+        ds = defs.get(tp["l"], [])
+        if len(ds) != 1 or ds[0] is None or ds[0].get("agg") != "tuple":
+            continue
+        t["fn"] = c["fn"]
+        t["fn_args"] = c.get("fn_args", "")
+        t["resolved"] = c["fn"]
+        t["resolved_local"] = c["fn"] in by_path
+        t["args"] = copy.deepcopy(ds[0]["ops"])
+        t["arg_tys"] = []
+        t["devirtualised"] = True
+        n += 1
+    return n
+
+
 def normalise(crate_name, bodies, known):
     """bodies: list of body dicts of one crate (mutated in place). known: set of function paths of the inventory.
     Returns (absorbed_paths, report)."""
@@ -152,7 +214,11 @@ def normalise(crate_name, bodies, known):
                 not_absorbed.add(p)
     for b in bodies:
         stack = [b["path"]]
+        before = len(report)
         _inline_into(b, pristine, stack, report, not_absorbed, 0)
+        if len(report) > before and devirtualise(b, by_path):
+            # the now-direct calls may themselves be helpers that are new to the inventory
+            _inline_into(b, pristine, stack, report, not_absorbed, 0)
     absorbed = set()
     for p, b in new.items():
         vis = b.get("vis", "")
